@@ -6,6 +6,7 @@ package schedx
 import (
 	"encoding/json"
 	"fmt"
+	"os"
 	"strings"
 
 	rt "github.com/craterdog/go-collection-framework/v4/verifrt"
@@ -84,7 +85,7 @@ func Explore(r *engine.Rec, prog rt.Program, o Opts) {
 	// mode A
 	var stA rt.ExploreStats
 	if !o.SkipA {
-		stA = rt.Explore(prog, rt.ExploreOpts{Bound: -1, Sleep: true, Race: true, Elide: elide, Deadline: r.Deadline, MaxExecs: o.CapA, OnExec: onExec})
+		stA = rt.Explore(prog, rt.ExploreOpts{Bound: -1, Sleep: true, DPOR: os.Getenv("VERIF_NO_DPOR") == "", Race: true, Elide: elide, Deadline: r.Deadline, MaxExecs: o.CapA, OnExec: onExec})
 		if stA.ElisionOff {
 			elide = false
 		}
